@@ -240,9 +240,10 @@ def c18(tier, seed, only=None):
     t0 = time.time()
     mons = [P + "AppendOnly"]
     jobs = _persist_jobs(tier, mons, False)
+    big_names = {s.name for s in gen.f2_all(tier) + gen.f4_all(tier) + gen.f5_all(tier) if gen.is_big(s)}
     for j in jobs:
         j["cfg"]["render"] = True
-        if j["cfg"].get("rerun"):
+        if j["cfg"].get("rerun") and (tier != "quick" or j["scn"]["name"] not in big_names):
             j["cfg"]["rerun_with_inflight"] = True
             j["cfg"]["dev"] = j["cfg"]["dev"] + 1
     jobs = _filter(jobs, only)
